@@ -915,6 +915,8 @@ func (g *Gen) stmt(d int) []Stmt {
 		return g.nullStmts(d)
 	case r < 19 && g.F.Lists && g.F.Funcs && g.R.Chance(1, 5):
 		return g.anyObjStmts(d)
+	case r < 19 && g.F.DigitNames && g.R.Chance(1, 10):
+		return g.declBurst()
 	case r < 19 && g.F.Lists && g.R.Chance(1, 3):
 		if st := g.nestedListStmts(d); st != nil {
 			return st
@@ -934,6 +936,23 @@ func (g *Gen) stmt(d int) []Stmt {
 		}
 	}
 	return []Stmt{g.letStmt(d)}
+}
+
+// declBurst: a name declared many times in one function next to a live variable whose name is that
+// name followed by digits (`a1` and eleven or more `a`): the compiler tells declarations of one
+// name apart by a running number, so name and number must stay separable in whatever it derives.
+func (g *Gen) declBurst() []Stmt {
+	g.cover("decl-burst")
+	base := fw.Pick(g.R, baseNames)
+	digit := 1 + g.R.Intn(2)
+	look := fmt.Sprintf("%s%d", base, digit)
+	g.declare(look, Int)
+	out := []Stmt{Let{Name: look, V: IntLit{int64(1000 + g.R.Intn(1000))}}}
+	n := 10*digit + 1 + g.R.Intn(3)
+	for i := 0; i < n; i++ {
+		out = append(out, ExprStmt{&Block{Stmts: []Stmt{Let{Name: base, V: IntLit{int64(i)}}}}})
+	}
+	return append(out, ExprStmt{Builtin{"println", []Expr{StrLit{"burst"}, Var{look, Int}}}})
 }
 
 // anyObjStmts: a function that builds a fresh any-object from one literal site, fills it and reports
@@ -1144,7 +1163,14 @@ func (g *Gen) closureStmts(d int) []Stmt {
 	}
 	gf := genFn{name: name, ret: rt}
 	g.inFn, g.loopDepth, g.inTry = &gf, 0, 0
-	body := &Block{Tail: g.expr(rt, d-1)}
+	body := &Block{}
+	if g.R.Chance(1, 2) {
+		// a closure body with statements and a return of its own: whatever the creating function
+		// has open where the literal stands (try blocks, loops) is not the closure's to leave
+		g.cover("closure-return")
+		body.Stmts = append(body.Stmts, ExprStmt{If{Cond: g.expr(Bool, d-1), Then: &Block{Stmts: []Stmt{Return{g.expr(rt, d-1)}}}}})
+	}
+	body.Tail = g.expr(rt, d-1)
 	g.noAssign = false
 	g.inFn, g.loopDepth, g.inTry = savedFn, savedLoop, savedTry
 	g.scopes = saved
